@@ -2,7 +2,8 @@
 From Coq Require Import NArith ZArith List Bool String.
 From ZV.Codec Require Import Bytes XXH64 Fse Huf Block Frame.
 From ZV.Gen Require Import Gen_Tables Gen_C03.
-From ZV.Safety Require Import DDictHashSet DDictHashSetProofs RTotal ROutput RBound RCopy REntropy NoProgress NoProgressProofs Witnesses Consts LitBuffer LitBufferProofs RingBuffer RingBufferProofs.
+From ZV.Safety Require Import DDictHashSet DDictHashSetProofs RTotal ROutput RBound RCopy REntropy NoProgress NoProgressProofs Witnesses Consts LitBuffer LitBufferProofs RingBuffer RingBufferProofs
+  Continuity ContinuityProofs.
 Import ListNotations.
 Local Open Scope N_scope.
 
@@ -213,11 +214,17 @@ Theorem C03_ddict_hashset_in_bounds : forall (h : N -> N) (l : list (N * N)),
 Proof. exact ddict_hashset_in_bounds. Qed.
 Print Assumptions C03_ddict_hashset_in_bounds.
 
+(* (round 2, after fix d50580e of the lookup loop) no hypothesis on the stored dictIDs any more: raw-content DDicts (dictID 0) are
+   regular entries; only the searched dictID must be non-zero, and searching 0 selects nothing *)
 Theorem C03_ddict_hashset_finite_map : forall (h : N -> N) (l : list (N * N)) (s : hset) (id : N),
-  Forall (fun e => fst e <> 0) l ->
+  id <> 0 ->
   add_all h next_fixed l create = HOk s -> get h next_fixed s id = HOk (spec_get l id None).
 Proof. exact ddict_hashset_finite_map. Qed.
 Print Assumptions C03_ddict_hashset_finite_map.
+
+Theorem C03_ddict_hashset_get_zero : forall (h : N -> N) (s : hset), get h next_fixed s 0 = HOk None.
+Proof. exact ddict_hashset_get_zero. Qed.
+Print Assumptions C03_ddict_hashset_get_zero.
 
 Theorem C03_ddict_hashset_oob_refuted :
   get_index xxh_hash 64 3 = 63 /\ get_index xxh_hash 64 47 = 63 /\
@@ -243,6 +250,40 @@ Theorem C03_noprogress_unbounded_without_check : forall n,
   np_run np_step_nocheck 0 (repeat {| ob_progress := false; ob_dest_full := false; ob_in_empty := true |} n) = Some (N.of_nat n).
 Proof. exact noprogress_unbounded_without_check. Qed.
 Print Assumptions C03_noprogress_unbounded_without_check.
+
+(* ---- block-level / buffer-less API: history bookkeeping (ZSTD_checkContinuity, ZSTD_insertBlock; round 2) ---- *)
+(* for every call history (raw blocks announced with ZSTD_insertBlock, blocks decoded or refused by ZSTD_decompressBlock, a dictionary,
+   at any addresses, with any sizes incl. 0): under the repaired bookkeeping, whatever an accepted offset of the next block can reach
+   was stored by the caller or regenerated by the decoder earlier in that history *)
+Theorem C03_continuity_fixed_sound : forall os a cap x,
+  Forall wf_op os -> (0 < cap)%Z ->
+  reach (check_cont (run step_fixed c_init os) a cap) x -> covered (written os) x.
+Proof. exact continuity_fixed_sound. Qed.
+Print Assumptions C03_continuity_fixed_sound.
+
+(* the code as written has the same guarantee on histories without empty operations ... *)
+Theorem C03_continuity_aswritten_sound_without_empty_ops : forall os a cap x,
+  Forall wf_op os -> Forall nonempty_op os -> (0 < cap)%Z ->
+  reach (check_cont (run step c_init os) a cap) x -> covered (written os) x.
+Proof. exact continuity_aswritten_sound_without_empty_ops. Qed.
+Print Assumptions C03_continuity_aswritten_sound_without_empty_ops.
+
+(* ... and loses it with one empty raw block (or one empty compressed block decoded with capacity 0): finding
+   C03-block-api-empty-insertblock-loses-prefix *)
+Theorem C03_continuity_empty_op_refuted :
+  let s := check_cont (run step c_init [Insert 1000 0]) 1000 100 in
+  Forall wf_op [Insert 1000 0] /\ reach s 999 /\ ~ covered (written [Insert 1000 0]) 999 /\
+  let os2 := [Insert 1000 5; Insert 5000 0] in
+  let s2 := check_cont (run step c_init os2) 5000 100 in
+  Forall wf_op os2 /\ reach s2 2000 /\ ~ covered (written os2) 2000 /\
+  reach (check_cont (run step c_init [Decode 1000 0 0]) 1000 100) 999.
+Proof. exact continuity_empty_op_refuted. Qed.
+Print Assumptions C03_continuity_empty_op_refuted.
+
+Example C03_continuity_fixed_example :
+  let os := [RefDict 500 100; Insert 1000 0; Decode 1000 300 120; Insert 4000 16] in
+  Forall wf_op os /\ run step_fixed c_init os = {| c_prev := 4016; c_prefix := 4000; c_virt := 3880; c_dictEnd := 1120 |}.
+Proof. exact continuity_fixed_example. Qed.
 
 (* ---- the limits of the model are the limits of the current sources ---- *)
 Theorem C03_gen_consts_match_model :
